@@ -556,6 +556,41 @@ class Interp:
                     return args[1]
                 st.pending = st.pending or "KeyError"
                 return U("KeyError")
+            if meth == "move_to_end" and args:
+                if args[0] in d:
+                    last = not ("last" in kwargs and kwargs["last"] == K(False)) and not (len(args) > 1 and args[1] == K(False))
+                    v0 = d.pop(args[0])
+                    if last:
+                        d[args[0]] = v0
+                    else:
+                        rest = list(d.items())
+                        d.clear()
+                        d[args[0]] = v0
+                        d.update(rest)
+                    return K(None)
+                st.pending = st.pending or "KeyError"
+                return U("KeyError")
+            if meth == "popitem":
+                if not d:
+                    st.pending = st.pending or "KeyError"
+                    return U("KeyError")
+                first = ("last" in kwargs and kwargs["last"] == K(False)) or (args and args[0] == K(False))
+                k0 = next(iter(d)) if first else list(d)[-1]
+                return K((k0, d.pop(k0)))
+            if meth == "clear" and not args:
+                d.clear()
+                return K(None)
+            if meth == "copy" and not args:
+                return st.alloc("dict", dict(d))
+            if meth == "update" and len(args) == 1 and not kwargs:
+                a0 = args[0]
+                if isinstance(a0, Ref) and a0.kind in ("dict", "defaultdict"):
+                    d.update(st.dict_of(a0))
+                    return K(None)
+                if isinstance(a0, R) and a0.kind == "dict" and "items" in a0.fields:
+                    d.update(dict(a0.fields["items"]))
+                    return K(None)
+                return None
             if meth == "isdisjoint":
                 return None
             return None
@@ -571,6 +606,8 @@ class Interp:
             return K(tuple(k for k, _ in it)) if meth == "keys" else K(tuple(v for _, v in it))
         if fname is None:
             return None
+        if tail in ("OrderedDict", "WeakKeyDictionary", "WeakValueDictionary", "Counter") and not args and not kwargs:
+            return st.alloc("dict", {})
         if tail == "defaultdict" and len(args) <= 1:
             fac = args[0].name.split(":")[-1] if args and isinstance(args[0], S) else "none"
             return st.alloc("defaultdict", ("dd", fac, {}))
@@ -584,6 +621,16 @@ class Interp:
             return None
         if fname == "dict" and not args and not kwargs:
             return st.alloc("dict", {})
+        if fname == "dict" and len(args) == 1 and not kwargs:
+            a0 = args[0]
+            if isinstance(a0, Ref) and a0.kind in ("dict", "defaultdict"):
+                return st.alloc("dict", dict(st.dict_of(a0)))  # a copy
+            if isinstance(a0, R) and a0.kind == "dict" and "items" in a0.fields:
+                return st.alloc("dict", dict(a0.fields["items"]))
+            seq = self.iterate(a0, st)
+            if seq is not None and all(isinstance(x, K) and isinstance(x.v, tuple) and len(x.v) == 2 for x in seq):
+                return st.alloc("dict", {x.v[0]: x.v[1] for x in seq})
+            return None
         if fname == "set" and len(args) <= 1:
             seq = self.iterate(args[0], st) if args else []
             if seq is not None:
